@@ -145,6 +145,24 @@ def image_cuts(rng, total_map, hdr, n):
     return cuts[:n]
 
 
+def container_mutants(rng, comp, n_cuts):
+    """damage to a compressed *container* (the ARPA text inside is valid): the stream cut short in its header, in the middle and
+    inside its trailer (interrupted copy / download), one byte changed, bytes appended, two members concatenated, the bare magic"""
+    n = len(comp)
+    cuts = {1, 5, 6, 7, 10, n // 3, n // 2, n - 9, n - 8, n - 4, n - 1, rng.range(11, max(12, n - 10)), rng.range(11, max(12, n - 10))}
+    cuts = sorted(c for c in cuts if 0 < c < n)
+    rng.shuffle(cuts)
+    early = [c for c in cuts if c <= 10][:1]
+    tail = [c for c in cuts if c >= n - 9][:1]
+    mid = [c for c in cuts if 10 < c < n - 9]
+    for c in (early + tail + mid)[:n_cuts]:
+        yield comp[:c], "container:truncated:%d/%d" % (c, n)
+    k = rng.range(12, max(13, n - 10))
+    yield comp[:k] + bytes([comp[k] ^ (1 << rng.below(8))]) + comp[k + 1:], "container:byte-changed"
+    yield comp + bytes(rng.below(256) for _ in range(rng.range(1, 40))), "container:bytes-appended"
+    yield comp + comp, "container:two-members"
+
+
 def render(model, shuffle_rng=None):
     out = ["\\data\\"]
     for n in sorted(model["grams"]):
@@ -678,7 +696,8 @@ def mutate_binary(rng, data):
         b[k] ^= 1 << rng.below(8)
         return bytes(b), "sanity"
     if kind == "order":
-        v = rng.choice([0, 7, 8, 255, 0, 7])
+        # 0, above KENLM_MAX_ORDER, and any other order than the file's own (the image then no longer matches the header)
+        v = rng.choice([0, 7, 8, 255] + [o for o in range(1, 7) if o != order] * 2)
         b[OFF_ORDER] = v
         if v > order and rng.chance(1, 2):
             b[SANITY + FIXED + 8 * order:SANITY + FIXED + 8 * order] = struct.pack("<Q", 1) * (v - order)
